@@ -39,6 +39,13 @@ Fixpoint src_index_from (l : list obj) (x : obj) (k : Z) : res Z :=
   end.
 Definition src_list_index (l : list obj) (x : obj) : res Z := src_index_from l x 0.
 
+(* outcome of a function translated with `raise` as a value (the _x definitions): what it returned, or that it raised
+   RuntimeError / another exception through an explicit raise statement - the heap beside it is the heap at that moment *)
+Inductive xout (A : Type) := XRet (a : A) | XErr | XRaise (k : crash_kind).
+Arguments XRet {A} a.
+Arguments XErr {A}.
+Arguments XRaise {A} k.
+
 Definition src_list_insert (i : Z) (x : obj) (l : list obj) : list obj :=
   let n := Z.of_nat (length l) in
   let j := if i <? 0 then Z.max 0 (n + i) else Z.min i n in
@@ -259,23 +266,68 @@ ASSERTS = [
     ('Task', 'children', 'property', ['return _ChildrenList(self, self.__children, self.__set_children)']),
     ('Task', 'predecessors', 'property', ['return _PredecessorsList(self, self.__predecessors)']),
     ('Task', 'successors', 'property', ['return _SuccessorsList(self, self.__successors)']),
+    # `facade + other` (what `t.children += other` evaluates before it calls the setter): the list, then the argument
+    ('_ImmutableTaskList', '__add__', None, ['return self._list.__add__(_to_list(other))']),
+]
+
+# the thin wrappers of WBS around its hidden root task (wbs.py): the model takes them for what they say
+WBS_ASSERTS = [
+    ('WBS', '_root', None, ['return self.__root']),
+    ('WBS', 'roots', 'property', ['return self.__root.children']),
+    ('WBS', 'roots', 'roots.setter', ['self.__root.children = value']),
+    ('WBS', 'tasks', 'property', ['return self.__root.all_children']),
+    ('WBS', '__floordiv__', None, ['return self.__root // other']),
 ]
 
 
-def check_asserts(src):
+# ---- the operators  t // other,  t << other,  t >> other  (the facade's `+`, then the setter) ------------------------
+def operator(func, prop, setter, coq):
+    return dict(file='task.py', cls='Task', func=func, coq_name=coq, heap='h', state='h', obj_attrs=ATTRS_W2, obj_writes=WRITES2,
+                prop_setters={prop: (setter + ' fuel', LOO)},
+                params={'self': ('self', 'obj'), 'other': ('other', LOO), 'h': ('h', 'heap')},
+                signature=[('fuel', 'nat'), ('h', 'heap'), ('self', 'obj'), ('other', LOO)], ret=LOO)
+
+
+SPECS += [
+    operator('__floordiv__', 'children', 'src_set_children', 'src_op_floordiv'),
+    operator('__lshift__', 'predecessors', 'src_set_predecessors', 'src_op_lshift'),
+    operator('__rshift__', 'successors', 'src_set_successors', 'src_op_rshift'),
+]
+
+# ---- the same thirteen writers once more, with `raise` as a value: `Ok (heap at the raise, None)` instead of `Err` --------
+# (what a rejected call leaves behind: C15).  A call of a translated setter inside a facade goes to the setter's own
+# variant; read-only callees that raise (`__check_no_links_with`, `_check_not_none`) reject with the heap of the statement.
+def xvariant(sp):
+    x = dict(sp)
+    x['coq_name'] = sp['coq_name'] + '_x'
+    x['raise_as_value'] = True
+    for key in ('prop_setters', 'self_mutators'):
+        if key in sp:
+            x[key] = {k: (v[0].replace('src_set_parent', 'src_set_parent_x').replace('src_set_children', 'src_set_children_x')
+                          .replace('src_set_predecessors', 'src_set_predecessors_x').replace('src_set_successors', 'src_set_successors_x')
+                          .replace('src_ch_move', 'src_ch_move_x'),) + tuple(v[1:]) for k, v in sp[key].items()}
+    return x
+
+
+XNAMES = ('src_set_parent', 'src_set_predecessors', 'src_set_successors', 'src_set_children', 'src_ch_move', 'src_ch_append',
+          'src_ch_remove', 'src_ch_insert', 'src_ch_reorder', 'src_pred_append', 'src_pred_remove', 'src_succ_append', 'src_succ_remove')
+SPECS += [xvariant(sp) for name in XNAMES for sp in SPECS if sp['coq_name'] == name]
+
+
+def check_asserts(src, asserts=None, fname='task.py'):
     import ast
     problems = []
     tree = ast.parse(src)
-    for cls, func, deco, want in ASSERTS:
+    for cls, func, deco, want in (ASSERTS if asserts is None else asserts):
         try:
             fn = pylite.find_function(tree, cls, func, None, deco)
         except pylite.Unsupported as e:
-            problems.append('task.py %s.%s: %s' % (cls, func, e))
+            problems.append('%s %s.%s: %s' % (fname, cls, func, e))
             continue
         body = [st for st in fn.body if not (isinstance(st, ast.Expr) and isinstance(st.value, ast.Constant) and isinstance(st.value.value, str))]
         got = [ast.unparse(st) for st in body]
         if got != want:
-            problems.append('task.py %s.%s: the facade translation assumes the body %r, the source says %r' % (cls, func, want, got))
+            problems.append('%s %s.%s: the translation assumes the body %r, the source says %r' % (fname, cls, func, want, got))
     return problems
 
 
@@ -288,7 +340,9 @@ def wbs_root(tr, e, env, k):
     return tr.expr(e.func.value, env, with_w)
 
 
-[sp for sp in SPECS if sp['coq_name'] == 'src_set_parent'][0]['calls']['self.__wbs._root'] = ('custom', wbs_root)
+for _sp in SPECS:
+    if _sp['coq_name'] in ('src_set_parent', 'src_set_parent_x'):
+        _sp['calls']['self.__wbs._root'] = ('custom', wbs_root)
 
 
 def emit(repo):
@@ -301,6 +355,11 @@ def emit(repo):
     except OSError as e:
         return '', ['task.py: %s' % e]
     problems += check_asserts(src)
+    try:
+        with open(os.path.join(repo, 'src', 'pjplan', 'wbs.py'), encoding='utf-8') as f:
+            problems += check_asserts(f.read(), WBS_ASSERTS, 'wbs.py')
+    except (OSError, SyntaxError) as e:
+        problems.append('wbs.py: %s' % e)
     for sp in SPECS:
         try:
             where = '%s%s%s' % ((sp['cls'] + '.') if sp.get('cls') else '', (sp['nested_in'] + '.') if sp.get('nested_in') else '', sp['func'])
